@@ -317,14 +317,16 @@ class C05(core.Check):
     )
     assumptions = [
         "closeness `norm(p - q) < TOL` is an equivalence on the points of one assembly (clusters of diameter < TOL, "
-        "different clusters >= 100 TOL apart); the theorems state this as a hypothesis, the generators respect it",
+        "different clusters >= 100 TOL apart); the key theorems state this as a hypothesis, the generators respect it -- "
+        "except the near-chain cases, which are judged by first-match semantics (T_C05_first_match*, no such hypothesis)",
         "float64 evaluation of the norm agrees with the exact rational evaluation away from the threshold",
         "python `sorted` on `str` = lexicographic order by code point = Lean `String` order (names are ASCII)",
     ]
     partial_note = (
         "Exact characterisation proved: two corners share a vertex iff same position class and same slave-patch set. "
         "Blocks whose slave-patch sets at a common point differ but overlap are therefore not connected there; the "
-        "property text can be read either way (see notes/C05.md)."
+        "property text can be read either way (see notes/C05.md). Without separated clusters only first-match semantics "
+        "holds (proved); the partition then depends on the insertion order (witness proved and replayed)."
     )
 
     # ------------------------------------------------------------------ generators
